@@ -70,8 +70,8 @@ CLAIMS.update({
             "Coq proof (completeness by inversion of completed runs + restriction to consumed bytes, structure types and Command / Response messages; operation-level error anatomy) + region-arithmetic oracle + correspondence on fault-enumerated inputs", "4 C03"),
     "C04": ("proof", "PROVED for EVERY root (structure types, commands, responses, streams of whole messages below the model's loop bound; all inputs; tables passing msg_tables_ok, which the regenerated ones do): a structurally consistent input is rejected by strict decoding if and only if some leaf of the field-by-field reading is out of range (valid <-> membership in the declared set, C16); the error names the FIRST such leaf in wire order (path, declared type, integer), exactly the events of all earlier fields and none for the offending one have been emitted, exactly the bytes after that field remain (Proofs/Sim6-13.v: warn-mode simulation + strict/warn agreement + strict mode never warns); the field-level anatomy for all states. NOT proved: reserved / unknown command codes (they make the input structurally inconsistent for the specification, so the theorems do not speak about them): decided by the oracle (implementation vs extracted spec_value_error at the pinned tables on every constrained leaf of generated messages, command codes included) and the correspondence." + PART % "C04",
             "Coq proof (simulation + strict/warn agreement; all roots) + extracted specification as oracle + correspondence", "4 C04"),
-    "C05": ("proof", "Proved for all inputs/roots/tables: Depleted <=> the decoder is suspended asking for a byte with the whole input handed over and nothing left; Superfluous carries exactly the non-empty unread rest (input = consumed ++ rest); a suspended decoder has used its input up (both modes). With C10_prefix_stable the events before a depleted error are a prefix of the full decode's events. That they are exactly the complete fields needs C01 (partial). Oracle: every/boundary cut points and suffixes of generated messages and streams, command code carried, clean stream ends only at message boundaries." + PART % "C05",
-            "Coq proof (pump characterisation, accounting, incrementality) + cut/suffix enumeration oracle + correspondence", "4 C05"),
+    "C05": ("proof", "PROVED (composition; every root; all tables passing the message checks, which the regenerated ones do; every well-formed message or stream of messages w): w cut anywhere before its end decodes to the events of exactly the fields complete within the cut (structure events that need no further byte included), then InputStreamBytesDepletedError carrying the command code iff its field was among them - for the stream root whenever no message starts at the cut offset, while a stream of whole messages ends cleanly (so a stream ends cleanly only at a message boundary); w followed by any non-empty bytes decodes (non-stream roots) to all events of w, then InputStreamSuperfluousBytesError carrying exactly those bytes and the command code. Key lemma (Proofs/Asks.v, closure over every decoder function, both modes): a decoder that stopped for lack of input continues, given more input, by reading exactly the next byte - so the run on a cut is the maximal part of the whole run that needs no further byte. Mechanism, all inputs well-formed or not: Depleted <=> the decoder is suspended asking for a byte with the whole input handed over; Superfluous carries exactly the non-empty unread rest (input = consumed ++ rest). NOT proved: the event list before depleted/superfluous for inputs that are not prefixes/extensions of a well-formed message (C10's prefix stability applies). Oracle: every/boundary cut points and suffixes of generated messages and streams, command code carried, clean stream ends only at message boundaries." + PART % "C05",
+            "Coq proof (composition with C01 via incrementality + 'a suspended decoder reads next' closure; pump characterisation, accounting) + cut/suffix enumeration oracle + correspondence", "4 C05"),
     "C06": ("proof", "Termination is by construction (total Gallina function; loop exhaustion is the distinguished OFuel outcome). PROVED IN FULL for the model in strict mode (C06_every_root_documented, Proofs/Safe1-4.v): for EVERY byte string and EVERY root - any non-union structure type passing safe_ty, commands, responses to a known command code with either encryption flag, streams shorter than the model's loop bound of 2^64 bytes - on tables passing msg_safe (the regenerated tables, all 231 decodable types and all 468 area types pass by computation) decoding ends accepted, with a constraint error, depleted or superfluous: never with an internal error, never at a loop bound; and it never pulls more than the input holds. Proof idea: nothing ever removes the limit of a constraint object; a completed strict run has charged every live listed region exactly the bytes it read and closed the regions it opened exactly filled (so the session loop reaches its size, by-product values have the declared shape, no listed region is live at the end of a response); every message takes at least one byte. NOT proved: warn mode. Tie to /repo: crash oracle (exception classes escaping the implementation on random, mutated and mistyped inputs over all roots) and the correspondence on outcome classes incl. crashes.",
             "Coq proof (all roots, all inputs, strict mode) + crash oracle on arbitrary inputs + correspondence", "4 C06"),
     "C07": ("proof", "Proved for every decoder function, all tables, all states and inputs: a strict run that does not raise is reproduced exactly by warn mode; a strict run raising e after trace tr corresponds to a warn run that continues tr with (only for a value error) the offending event and then the warning wrapping the same e, or raises e itself after the same trace; through the pump: strict accepts => warn emits identical events and no warning; strict raises e => warn warns e after the same events; warn clean => strict accepts. Oracle: both modes on the same bytes (well-formed, fault-enumerated, cuts, random).",
